@@ -41,6 +41,7 @@ func firstStemOnOrAfter(jdn, stem int) int {
 func c13Run(w *W, c Case) {
 	y := c.A[0]
 	w.Class(fmt.Sprintf("century%02d", y/100))
+	historyTouch(w, y)
 	base := calendar.NewSolarFromYmd(y, 6, 15).GetLunar()
 	tbl := base.GetJieQiTable()
 	type td struct {
